@@ -1,0 +1,30 @@
+package values
+
+import (
+	"fmt"
+	"math"
+	"reflect"
+	"strconv"
+)
+
+// Sprint returns the text a value is printed as. It is fmt.Sprint, except that a float of
+// magnitude one million and above is written out in full: fmt switches to an exponent there
+// (1e+06, 2.5e+06), so that {{ 1250000 | times: 2 }} printed 2.5e+06.
+func Sprint(value any) string {
+	if value != nil {
+		switch rv := reflect.ValueOf(value); rv.Kind() {
+		case reflect.Float32:
+			return formatFloat(rv.Float(), 32, value)
+		case reflect.Float64:
+			return formatFloat(rv.Float(), 64, value)
+		}
+	}
+	return fmt.Sprint(value)
+}
+
+func formatFloat(f float64, bits int, value any) string {
+	if a := math.Abs(f); a >= 1e6 && a < 1e21 {
+		return strconv.FormatFloat(f, 'f', -1, bits)
+	}
+	return fmt.Sprint(value)
+}
